@@ -472,7 +472,8 @@ pub fn gen_cli(rng: &mut Rng) -> E3Scn {
         };
         children.push(ChildSpec { self_exit, code: rng.below(2) as i32, on_signal, ..Default::default() });
     }
-    let n = rng.range(0, 8);
+    // (one in 25: a long session)
+    let n = if rng.chance(1, 25) { rng.range(15, 45) } else { rng.range(0, 8) };
     let mut steps = Vec::new();
     let first_life = children[0].self_exit.unwrap_or(100);
     for i in 0..n {
